@@ -492,6 +492,15 @@ impl<'a> Generator<'a> {
         if self.rng.chance(1, 3) {
             g.annotations.insert("motd".into(), format!("welcome {}", lower(self.rng, 4)));
         }
+        // annotations that tooling writes: they are metadata like any other
+        if self.rng.chance(1, 4) {
+            let key = *self.rng.pick(&["kubectl.kubernetes.io/last-applied-configuration", "kubectl.kubernetes.io/restartedAt", "deployment.kubernetes.io/revision", "kubernetes.io/change-cause", "meta.helm.sh/release-name", "agones.dev/ready-container-id"]);
+            g.annotations.insert(key.into(), format!("{{\"rev\":{}}}", self.rng.below(1000)));
+        }
+        if self.rng.chance(1, 8) {
+            let key = *self.rng.pick(&["kubectl.kubernetes.io/default-container", "app.kubernetes.io/managed-by", "kubernetes.io/metadata.name"]);
+            g.labels.insert(key.into(), lower(self.rng, 5));
+        }
         g.players = if self.rng.chance(1, 4) { Some((self.rng.range(0, 20) as u32, 20)) } else { None };
     }
 
